@@ -916,6 +916,14 @@ Patch Parser::parse_context_patch(Patch& patch)
 
         parse_context_hunk(old_lines, old_start_line, new_lines, new_start_line);
 
+        // A half of a hunk may only be left out if the other half has no line which is changed, as
+        // every such line has its counterpart there.
+        auto changes_a_line = [](const std::vector<PatchLine>& lines) {
+            return std::any_of(lines.begin(), lines.end(), [](const PatchLine& line) { return line.operation == '!'; });
+        };
+        if ((new_lines.empty() && changes_a_line(old_lines)) || (old_lines.empty() && changes_a_line(new_lines)))
+            throw std::invalid_argument("malformed patch, changed lines without their counterpart at line " + std::to_string(m_line_number));
+
         Hunk hunk = hunk_from_context_parts(old_start_line, old_lines, new_start_line, new_lines);
         patch.hunks.push_back(hunk);
 
